@@ -40,4 +40,8 @@ def extractProblems : List String := []
     First statement found: `tool.RunPackedBinary()` -/
 def mainCallsRunPackedFirst : Bool := true
 
+/-- Pack: is the target opened so that its old content is discarded (`os.Create`, or `os.OpenFile` with
+    `O_TRUNC`)? Found: `os.Create(*p.TargetBinary)` -/
+def targetOpenTruncates : Bool := true
+
 end Ecal.Gen.C20
